@@ -53,7 +53,9 @@ func (b *Base85Encoder) Decode(data []byte) ([]byte, error) {
 		}
 	}
 
-	dst := make([]byte, len(source))
+	// ascii85.Decode stops silently as soon as fewer than 4 bytes are free in dst, and a single
+	// 'z' expands to 4 bytes, so dst must hold 4 bytes per input character.
+	dst := make([]byte, 4*len(source))
 	ndst, _, err := ascii85.Decode(dst, source, true)
 	if err != nil {
 		err = errors.WithStack(err)
